@@ -79,6 +79,10 @@ class ConfigNodeMeta(NamespaceableMeta):
                             del kwargs[arg_name]
                             continue
                         setattr(value, '_' + arg_name, kwargs[arg_name])
+                # an explicit "unsafe" mark must not get lost when the value is a node already (e.g.: !unsafe f'{x}')
+                if kwargs.get('safe') is False:
+                    value._safe = False
+
                 if any(k.startswith('implicit_') for k in kwargs.keys()):
                     value._propagate_implicit_values()
 
